@@ -397,12 +397,16 @@ int Response::parse_status_line(Parser &p) {
 }
 
 int Response::set_result(int code, std::string_view reason) {
+    if (reason.empty()) reason = obsolete_reason(code);
+    // "HTTP/1.1 " + code + ' ' + reason + "\r\n" must fit into the buffer
+    if ((size_t)m_buf_capacity <= reason.size() + 32)
+        LOG_ERROR_RETURN(ENOBUFS, -1, "out of buffer");
     char* buf = m_buf;
     m_status_code = code;
     buf_append(buf, "HTTP/1.1 ");
     buf_append(buf, code);
     buf_append(buf, " ");
-    buf_append(buf, reason.size() ? reason : obsolete_reason(code));
+    buf_append(buf, reason);
     buf_append(buf, "\r\n");
     m_buf_size = buf - m_buf;
     headers.reset(m_buf + m_buf_size, m_buf_capacity - m_buf_size);
